@@ -6,7 +6,7 @@ import ast
 
 from tiv.astutil import (body_walk, call_name, dotted, enclosing_stmt, guards, norm, short, stores_in, try_context,
                          walk_local)
-from tiv.cfg import CFG, EX, KI, handler_classes
+from tiv.cfg import CFG, EX, KI, handler_classes, handler_reraise
 from tiv.effects import emits, is_output_call, names_in, output_aliases, output_calls
 from tiv.mutate import M
 from tiv.sem import trace, same_bool
@@ -236,8 +236,8 @@ def run(ck, m):
                     may, must = handler_classes(h)
                     if KI in must:
                         n_h += 1
-                        reraises = any(isinstance(x, ast.Raise) for st in h.body for x in walk_local(st))
-                        last_bare = bool(h.body) and isinstance(h.body[-1], ast.Raise) and h.body[-1].exc is None
+                        rr = handler_reraise(h, KI)        # decided for the KeyboardInterrupt case of a handler shared with other classes
+                        reraises, last_bare = rr != "never", rr == "always"
                         if silent:
                             ck.ob("R5", h, not reraises, f"{fn.name}: an animation must end silently on Ctrl-C, but this handler re-raises", stmt=f"{fn.name}: KI handler L-silent: {short(h.type, 40) if h.type else 'bare'}")
                         else:
@@ -245,7 +245,7 @@ def run(ck, m):
         ck.expect(n_h >= 1, f"{fn.name}: no KeyboardInterrupt handler found")
     # the whole body of the animation driver loop is covered by a silent KI handler
     outer = next((s for s in animate_new.body if isinstance(s, ast.Try) and s.finalbody), None)
-    ck.ob("R5", outer or animate_new, outer is not None and any(KI in handler_classes(h)[1] and not any(isinstance(x, ast.Raise) for st in h.body for x in walk_local(st)) for h in outer.handlers),
+    ck.ob("R5", outer or animate_new, outer is not None and any(KI in handler_classes(h)[1] and handler_reraise(h, KI) == "never" for h in outer.handlers),
           "_animate_: the outer try must have a silent KeyboardInterrupt handler (Ctrl-C during sleep/render ends the animation)", stmt="_animate_: outer silent KI handler")
 
     # ---- R6: terminal attributes (input echo) restored by draw(): the C13 rules, applied to Renderable.draw --------------------
